@@ -34,6 +34,8 @@ edit('crates/oq3_parser/src/lexed_str.rs', "            let token_text = &text[c
 edit('crates/oq3_syntax/src/parsing.rs', "        oq3_parser::StrStep::Exit => builder.finish_node(),", "        // leave the node\n        oq3_parser::StrStep::Exit => builder.finish_node(),")
 edit('crates/oq3_source_file/src/source_file.rs', "                .any(|inclusion| inclusion.have_syntax_errors())", "                // ask every included file\n                .any(|inclusion| inclusion.have_syntax_errors())")
 edit('crates/oq3_syntax/src/ast/expr_ext.rs', "                T![||] => BinaryOp::LogicOp(LogicOp::Or),\n                T![&&] => BinaryOp::LogicOp(LogicOp::And),", "                T![&&] => BinaryOp::LogicOp(LogicOp::And),\n                T![||] => BinaryOp::LogicOp(LogicOp::Or),")
+# a gate moved inside its row of the standard library table (D42: rows are checked, the frame is pinned)
+edit('crates/oq3_semantics/src/symbols.rs', 'vec!["p", "rx", "ry", "rz", /* 2.0 */ "phase", "u1"]', 'vec!["p", "u1", "rx", "ry", "rz", /* 2.0 */ "phase"]')
 PY
 rc=0
 for p in ${*:-C01 C02 C03 C05 C06 C07 C08 C09 C11 C12 C13 C14 C15 C19 C20}; do
